@@ -179,12 +179,20 @@ Theorem C12_repeated_keys_fixed : forall outs keys cfg,
 Proof. exact order_by_checker_same_order. Qed.
 Print Assumptions C12_repeated_keys_fixed.
 
-(* LIMIT push-down: single full-scan clause, ORDER BY ?o DESC LIMIT 1 returns the row the DRIVER lists first, not the
+(* LIMIT push-down after repair e34ecad (only without ORDER BY and when every retrieved triple becomes one row): the
+   result is the one computed without any push-down *)
+Theorem C12_pushdown_unobservable : forall srt mask c lim rows,
+  (forall m, mask = Some m -> List.length m = List.length rows) ->
+  exec_order_limit_with srt true mask c lim rows = order_limit_with srt c lim rows.
+Proof. exact guarded_pushdown_unobservable. Qed.
+Print Assumptions C12_pushdown_unobservable.
+
+(* LIMIT push-down AS FOUND: single full-scan clause, ORDER BY ?o DESC LIMIT 1 returns the row the DRIVER lists first, not the
    largest *)
 Theorem C12_pushdown_refuted :
   exists rows ks out,
     d12 ks rows = true /\
-    exec_order_limit_with (@go_isort row) (Some [true; true; true]) (Some ks) (Some 1) rows = Ok out /\
+    exec_order_limit_with (@go_isort row) false (Some [true; true; true]) (Some ks) (Some 1) rows = Ok out /\
     order_limit_with (@go_isort row) (Some ks) (Some 1) rows <> Ok out.
 Proof.
   exists (one_col [CL (int_lit 1); CL (int_lit 2); CL (int_lit 3)]), [mkKey 1%N true]. eexists.
@@ -197,7 +205,7 @@ Print Assumptions C12_pushdown_refuted.
 Theorem C12_pushdown_count_refuted :
   exists (rows out : list row) mask,
     List.length rows = 2%nat /\ count_true mask = 2%nat /\
-    exec_order_limit_with (@go_isort row) (Some mask) None (Some 2) rows = Ok out /\ List.length out = 1%nat.
+    exec_order_limit_with (@go_isort row) false (Some mask) None (Some 2) rows = Ok out /\ List.length out = 1%nat.
 Proof.
   exists (one_col [CL (int_lit 1); CL (int_lit 2)]). eexists. exists [true; false; true].
   split; [reflexivity|]. split; [reflexivity|]. split; vm_compute; reflexivity.
